@@ -377,6 +377,78 @@ func (w *twin) reopen() {
 	w.t.Line("reopen", true, "reopen => %d %d", va, vb)
 }
 
+// ringHistory: a fixed-shape history that wraps the ring of cached heights several times with a
+// constant key count (each block deletes one live key and inserts one that is not live), and after
+// every commit reads every served height back: Get of all keys of the alphabet (recently deleted ones
+// in particular), Has through cachekv, and a full iteration in both directions.
+func ringHistory(r *gen.R, t *gen.Trace, multi bool) {
+	var w *twin
+	var capacity int64
+	if multi {
+		order := []string{"s0", "s1"}
+		w = &twin{on: newMultiSide(true, order), off: newMultiSide(false, order), t: t}
+		capacity = rootmulti.MemoryCacheCapacity
+	} else {
+		capacity = 3
+		w = &twin{on: newIavlSide(capacity), off: newIavlSide(0), t: t}
+	}
+	w.live = map[string]map[string]bool{}
+	for _, n := range w.on.names() {
+		w.live[n] = map[string]bool{}
+		t.Line("open", true, "open %s %d => -", n, capacity)
+	}
+	n := w.on.names()[0]
+	alpha := [][]byte{[]byte("k1"), []byte("k2"), []byte("k3"), []byte("k4"), []byte("k5"), []byte("k6"), []byte("k7")}
+	set := func(k []byte, v []byte) {
+		_ = w.on.working(n).Set(k, v)
+		_ = w.off.working(n).Set(k, v)
+		w.live[n][string(k)] = true
+		t.Line("set", true, "set %s %s %s => -", n, gen.Hex(k), gen.Hex(v))
+	}
+	del := func(k []byte) {
+		_ = w.on.working(n).Delete(k)
+		_ = w.off.working(n).Delete(k)
+		delete(w.live[n], string(k))
+		t.Line("del", true, "del %s %s => -", n, gen.Hex(k))
+	}
+	for i := 0; i < 4; i++ {
+		set(alpha[i], []byte{'v', byte('0' + i)})
+	}
+	for b := int64(1); b <= 2*capacity+8; b++ {
+		if b > 1 {
+			// delete one live key, insert one that is not live: the key count stays 4
+			var liveKs, deadKs [][]byte
+			for _, k := range alpha {
+				if w.live[n][string(k)] {
+					liveKs = append(liveKs, k)
+				} else {
+					deadKs = append(deadKs, k)
+				}
+			}
+			del(liveKs[r.Intn(len(liveKs))])
+			set(deadKs[r.Intn(len(deadKs))], []byte{'w', byte('0' + b%10)})
+		}
+		latest := w.commit()
+		for h := latest - capacity + 1; h < latest; h++ {
+			if h < 1 {
+				continue
+			}
+			for _, k := range alpha {
+				a, bb := w.stores(n, h, false)
+				ga, gb := getR(a, k), getR(bb, k)
+				t.Line("get", gb != "~", "get %s %d %s => %s %s", n, h, gen.Hex(k), ga, gb)
+			}
+			k := alpha[r.Intn(len(alpha))]
+			a, bb := w.stores(n, h, true)
+			ha, hb := hasR(a, k), hasR(bb, k)
+			t.Line("hasw", hb == "true", "hasw %s %d %s => %s %s", n, h, gen.Hex(k), ha, hb)
+			w.rng(n, h, nil, nil, true, false)
+			w.rng(n, h, nil, nil, false, false)
+		}
+	}
+	t.Line("end", false, "end => -")
+}
+
 func history(r *gen.R, t *gen.Trace, budget int) {
 	start := t.Lines
 	var w *twin
@@ -491,6 +563,9 @@ func main() {
 		}
 	}
 	t.Line("mode", false, "mode %s => %s", m, p)
+	// two fixed-shape histories first: the ring of cached heights wraps with a constant key count
+	ringHistory(r, t, false)
+	ringHistory(r, t, true)
 	for t.Lines < *n {
 		history(r, t, *n/3+200)
 	}
